@@ -6,7 +6,7 @@
 * src/repr/cnf.rs        (`Cnf::{new, num_vars, eval, is_sat_partial, condition, wmc, var_in_cnf}`,
                           `CnfHasher::{decide, push, pop, hash}`),
 * src/repr/unit_prop.rs  (`UnitPropagate::{new, decide}`, `SATSolver::{new, pop, decide, is_sat,
-                          cur_hash, is_set, difference_iter, update_hash_and_sat_set}`)
+                          cur_hash, is_set, difference_iter, update_hash_and_sat_set}`) — all registered in `FUNCS`
 
 into `lean/RsddModel/Model/GenCnfUp.lean`; `lean/RsddModel/Props/TieCnfUp.lean` proves the regenerated
 definitions equal to the hand-written models (`Model/CnfUtil.lean`, `Model/UnitProp.lean`).
@@ -72,6 +72,11 @@ unit_prop.rs:       `UnitPropResult::UNSAT` ↦ `some (wl, none)`, `PartialSAT(m
                     `decideK (loop s.cnf true s.fuel) wl m l`; `self.cnf.clauses()` ↦ `cnf`; `self.top_state()` ↦ head of
                     `s.stack` (panic = `none` / `.error`); `S[S.len() - 2]` ↦ `stack[1]?`; `DecisionResult::X` ↦ `.x`;
                     `self.update_hash_and_sat_set(m)` ↦ the model's `updateHashAndSatSet s.clauses s.numVars top m`
+SATSolver::new:     `UnitPropagate::new(cnf)` ↦ `upNew cnf true (defaultFuel cnf)`; the struct fields `contains_pos_lit` /
+                    `contains_neg_lit` do not exist in the model: the statements that only build them are SKIPPED (trusted)
+UnitPropagate::new: the local `watch_list_pos/neg` vectors ↦ one `wl : WL` (`Vec::new()` ↦ `WL.empty`, pushing empty inner
+                    vectors is a no-op because an absent position reads as `[]`), `cur.decide(m, l)` ↦
+                    `decideK (loop cnf true fuel) wl m l`; Rust `None` ↦ `some none`, fuel exhausted ↦ `none`
 elaboration guard:  after translation the whole generated file is elaborated once with `lake env lean`; a definition
                     that does not elaborate falls back to its alias (status UNTRANSLATED "does not elaborate");
                     set GEN_CNFUP_NOCHECK=1 to skip
@@ -714,7 +719,9 @@ def assigned(node):
             tgt = path_name(t)
             if n[2] in ("next", "nth") and n[1][0] == "mcall" and n[1][2] == "clone":
                 tgt = None
-        if tgt in ("self.watch_list_pos", "self.watch_list_neg"):
+        if n[0] == "mcall" and n[2] == "decide" and path_name(n[1]) in ("cur", "self.up", "self") and len(n[3]) == 2:
+            tgt = "wl"
+        if tgt in ("self.watch_list_pos", "self.watch_list_neg", "watch_list_pos", "watch_list_neg"):
             tgt = "wl"
         if tgt and tgt not in out:
             out.append(tgt)
@@ -784,6 +791,7 @@ class Fn:
         self.consumed = set()
         self.prelude = []
         self.subst = {}
+        self.aliases = {}
         self.used_top = False
         self.stack_mutated = False
         for (n, ty) in params:
@@ -799,6 +807,8 @@ class Fn:
     # ------------------------------------------------------------------ names
     def var(self, name):
         """Lean name of the rust local / self field"""
+        if name in self.aliases:
+            return self.aliases[name]
         if name in self.consumed:
             raise Untranslatable("iterator `%s` is used after it was advanced" % name)
         if name.startswith("self."):
@@ -919,6 +929,12 @@ class Fn:
             return ".ret %s" % par(pv)
         return pv
 
+    def fuel_out(self):
+        v = self.spec.get("fuel_out", self.spec.get("panic_val", "none"))
+        if self.loops and self.loops[-1]["mode"] != "fuel":
+            return ".ret %s" % par(v)
+        return v
+
     def do_jump(self, kind, label):
         """`break` / `continue` (possibly labelled) at the current position"""
         if not self.loops:
@@ -938,7 +954,33 @@ class Fn:
         return ".ret ()"
 
     # ------------------------------------------------------------------ statements
+    def dead_vars(self):
+        """locals that only flow into struct fields the model does not have (spec `dropped_fields`)"""
+        if not hasattr(self, "_dead"):
+            dead = set()
+            for n in walk(self.body):
+                if n[0] == "struct":
+                    for (f, v) in n[2]:
+                        if f in self.spec.get("dropped_fields", ()):
+                            pn = path_name(v)
+                            if pn is None:
+                                raise Untranslatable("dropped field %s is not initialised from a local" % f)
+                            dead.add(pn)
+            self._dead = dead
+        return self._dead
+
+    def is_dead_stmt(self, s):
+        dead = self.dead_vars()
+        if not dead:
+            return False
+        if s[0] == "let":
+            return s[1][0] == "pvar" and s[1][1] in dead
+        a = assigned(s[1])
+        return bool(a) and set(a) <= dead and s[1][0] in ("for", "mcall", "assign", "if")
+
     def seq(self, stmts, tail, k):
+        if stmts and self.is_dead_stmt(stmts[0]):
+            return self.seq(stmts[1:], tail, k)
         if not stmts:
             if tail is None:
                 return k(None)
@@ -1005,6 +1047,12 @@ class Fn:
                 return "(match %s with\n| none => %s\n| some %s => (\n%s))" % (self.ex(s, allow_panic_call=True), self.do_panic(), v, k(v))
             if s[0] == "unary" and s[1] == "!" :
                 return self.hoist(s[2], lambda v: k("!" + par(v)))
+            if s[0] == "mcall" and s[2] == "update_hash_and_sat_set" and path_name(s[1]) and self.kinds.get(path_name(s[1])) == "solver" \
+                    and len(s[3]) == 1:
+                x = self.var(path_name(s[1]))
+                top = self.fresh("top")
+                return ("(match %s.stack with\n| [] => %s\n| %s :: _ => (\n%s))"
+                        % (x, self.do_panic(), top, k("updateHashAndSatSet %s.clauses %s.numVars %s %s" % (x, x, top, par(self.ex(s[3][0]))))))
             if s[0] == "mcall" and s[2] == "unwrap" and strip(s[1])[0] == "mcall" and strip(s[1])[2] == "last" \
                     and path_name(strip(s[1])[1]) in self.spec.get("stacks", ()):
                 st = self.var(path_name(strip(s[1])[1]))
@@ -1067,6 +1115,16 @@ class Fn:
             # `let x;` assigned later: treat as declared
             return rest()
         names = pat_vars(pat)
+        if self.spec.get("wl_locals") and pat[0] == "pvar":
+            if pat[1] in ("watch_list_pos", "watch_list_neg") and strip(init) == ("call", ("path", ["Vec", "new"]), []):
+                return "let wl := WL.empty;\n" + rest()
+            si0 = strip(init)
+            if si0[0] == "struct" and si0[1][-1] == "UnitPropagate":
+                got = dict((f, path_name(v)) for f, v in si0[2])
+                if got != {"watch_list_pos": "watch_list_pos", "watch_list_neg": "watch_list_neg", "cnf": "cnf"}:
+                    raise Untranslatable("fields of UnitPropagate")
+                self.aliases[pat[1]] = "wl"
+                return rest()
         # kinds
         if pat[0] == "pvar":
             k = self.kind_of(init)
@@ -1180,9 +1238,16 @@ class Fn:
                 new = self.mutated("list", cur, m, args)
                 return "let wl := wl.upd %s %s %s;\n%s" % (pol, par(idx), par(new), rest())
             raise Untranslatable("mutation through an index")
+        if r[0] == "field" and r[2] == "state_stack" and path_name(r[1]) and self.kinds.get(path_name(r[1])) == "solver" and m == "push":
+            x = self.var(path_name(r[1]))
+            return "let %s := { %s with stack := %s :: %s.stack };\n%s" % (x, x, par(self.ex(args[0])), x, rest())
         name = path_name(r)
         if name is None:
             raise Untranslatable("mutating call on a complex receiver (.%s)" % m)
+        if self.spec.get("wl_locals") and name in ("watch_list_pos", "watch_list_neg"):
+            if m == "push" and len(args) == 1 and strip(args[0]) == ("call", ("path", ["Vec", "new"]), []):
+                return "let wl := wl;\n" + rest()
+            raise Untranslatable("operation on the vector of watch lists")
         kind = self.kinds.get(name) or self.field_kind(name)
         x = self.var(name)
         if name in self.spec.get("stacks", ()):
@@ -1305,7 +1370,7 @@ class Fn:
 
     def match(self, e, body_fn, scrut=None):
         sc0 = strip(e[1])
-        if self.flavor == "unitprop" and sc0[0] == "mcall" and sc0[2] == "decide" and path_name(sc0[1]) in ("self.up", "cur", "self") and "up_decide" in self.spec:
+        if self.flavor == "unitprop" and sc0[0] == "mcall" and sc0[2] == "decide" and (path_name(sc0[1]) in ("self.up", "self") or path_name(sc0[1]) in self.aliases) and "up_decide" in self.spec:
             if len(sc0[3]) != 2:
                 raise Untranslatable("arity of UnitPropagate::decide")
             call = self.spec["up_decide"] % (par(self.ex(sc0[3][0])), par(self.ex(sc0[3][1])))
@@ -1323,7 +1388,25 @@ class Fn:
                 raise Untranslatable("arms of the match on UnitPropagate::decide")
             self.kinds[part[0]] = "pm"
             return ("(match %s with\n| none => %s\n| some (wl, none) => (\n%s)\n| some (wl, some %s) => (\n%s))"
-                    % (call, self.spec.get("fuel_out", self.spec.get("panic_val", "none")), body_fn(uns), lname(part[0]), body_fn(part[1])))
+                    % (call, self.fuel_out(), body_fn(uns), lname(part[0]), body_fn(part[1])))
+        if self.flavor == "unitprop" and sc0[0] == "call" and sc0[1] == ("path", ["UnitPropagate", "new"]) and "up_new" in self.spec:
+            if len(sc0[2]) != 1:
+                raise Untranslatable("arity of UnitPropagate::new")
+            call = self.spec["up_new"] % par(self.ex(sc0[2][0]))
+            nn, ss = None, None
+            for (p, g, b) in e[2]:
+                if g is None and p[0] == "pctor" and p[1] == ["None"]:
+                    nn = b
+                elif g is None and p[0] == "pctor" and p[1] == ["Some"] and len(p[2]) == 1 and p[2][0][0] == "ptuple" \
+                        and len(p[2][0][1]) == 2 and all(q[0] == "pvar" for q in p[2][0][1]):
+                    ss = (p[2][0][1][0][1], p[2][0][1][1][1], b)
+                else:
+                    raise Untranslatable("arm of the match on UnitPropagate::new")
+            if nn is None or ss is None or len(e[2]) != 2:
+                raise Untranslatable("arms of the match on UnitPropagate::new")
+            self.kinds[ss[1]] = "pm"
+            return ("(match %s with\n| none => none\n| some (_, none) => (\n%s)\n| some (%s, some %s) => (\n%s))"
+                    % (call, body_fn(nn), lname(ss[0]), lname(ss[1]), body_fn(ss[2])))
         arms = self.match_arms(e)
         sc = scrut if scrut is not None else self.ex(e[1])
         out = ["(match %s with" % sc]
@@ -1476,6 +1559,8 @@ class Fn:
             return "varset"
         if s[0] == "call" and s[1][0] == "path" and s[1][1][0] == "PartialModel":
             return "pm"
+        if s[0] == "struct" and s[1][-1] == "SATSolver":
+            return "solver"
         return None
 
     def watch_list(self, r):
@@ -1687,7 +1772,9 @@ class Fn:
         got = dict((f, self.ex(v)) for f, v in e[2])
         if set(got) != set(fm):
             raise Untranslatable("fields of %s" % name)
-        return "{ " + ", ".join("%s := %s" % (fm[f], got[f]) for f in fm) + " }"
+        body = "{ " + ", ".join("%s := %s" % (fm[f], got[f]) for f in fm) + " }"
+        ty = self.spec.get("struct_types", {}).get(name)
+        return "(%s : %s)" % (body, ty) if ty else body
 
     def call(self, e):
         f, args = e[1], e[2]
@@ -1705,9 +1792,9 @@ class Fn:
         table = self.spec.get("calls", {})
         if full in table:
             t = table[full]
-            a = [par(self.ex(x)) for x in args]
             if callable(t):
-                return t(self, a)
+                return t(self, args)
+            a = [par(self.ex(x)) for x in args]
             if t.count("%s") != len(a):
                 raise Untranslatable("arity of " + full)
             return t % tuple(a)
@@ -1951,6 +2038,24 @@ UPD = dict(flavor="unitprop", self="self", fields={"cnf": "cnf"}, result=VAL,
 
 FUNCS += [
     ("UnitPropagate::decide", "unit_prop.rs", r"impl UnitPropagate\b", "decide", "upDecideK", "", "", "UnitProp.decideK", UPD),
+    ("SATSolver::update_hash_and_sat_set", "unit_prop.rs", r"impl SATSolver\b", "update_hash_and_sat_set", "genUpdateHashAndSatSet",
+     "(clauses : List (List (Lit × Nat))) (numVars : Nat) (top : SatState) (new_model : PModel)", "Nat × (Nat → Bool)", "UnitProp.updateHashAndSatSet",
+     spec(SOLVER, result=VAL, top_state="param", numVars="numVars", defaults={"self.clauses": "[]"},
+          fields={"clauses": "clauses", "contains_pos_lit": "(containsLit clauses true)", "contains_neg_lit": "(containsLit clauses false)"})),
+    ("UnitPropagate::new", "unit_prop.rs", r"impl UnitPropagate\b", "new", "genUpNew", "(cnf : Cnf) (fuel : Nat)", "Option (Option (WL × PModel))", "TieAux.upNewModel",
+     dict(flavor="unitprop", result=VAL, panic=True, wl_locals=True, fuel_out="none", up_decide="decideK (loop cnf true fuel) wl %s %s",
+          fields={}, methods={(None, "clauses"): "%s", (None, "num_vars"): "cnfNumVars %s"},
+          calls={"PartialModel::new": lambda fn, a: "PModel.empty"})),
+    ("SATSolver::new", "unit_prop.rs", r"impl SATSolver\b", "new", "solverNew", "(cnf : Cnf)", "Option (Option Solver)", "TieAux.solverNewModel",
+     spec(SOLVER, result=VAL, panic=True, top_state="none", up_new="upNew %s true (defaultFuel cnf)",
+          dropped_fields=("contains_pos_lit", "contains_neg_lit"), struct_types={"SatState": "SatState"},
+          methods={(None, "clauses"): "%s", (None, "num_vars"): "cnfNumVars %s"},
+          calls={"PartialModel::new": lambda fn, a: "PModel.empty", "BitSet::new": "(fun _ => false)"},
+          structs={"SatState": {"model": "model", "hash": "hash", "sat_clauses": "sat"},
+                   "SATSolver": lambda fn, f: "({ cnf := cnf, numVars := cnfNumVars cnf, fuel := defaultFuel cnf, wl := %s, clauses := %s, stack := %s } : Solver)"
+                                % (fn.ex(f["up"]), fn.ex(f["clauses"]), fn.ex(f["state_stack"]))
+                                if set(f) == {"up", "clauses", "contains_pos_lit", "contains_neg_lit", "state_stack"}
+                                else (_ for _ in ()).throw(Untranslatable("fields of SATSolver"))})),
     ("SATSolver::pop", "unit_prop.rs", r"impl SATSolver\b", "pop", "solverPop", "(s : Solver)", "Solver", "UnitProp.Solver.pop", spec(SOLVER, result=SELF)),
     ("SATSolver::cur_hash", "unit_prop.rs", r"impl SATSolver\b", "cur_hash", "solverCurHash", "(s : Solver)", "Option Nat", "UnitProp.Solver.curHash", spec(SOLVER, result=VAL, panic=True)),
     ("SATSolver::is_sat", "unit_prop.rs", r"impl SATSolver\b", "is_sat", "solverIsSat", "(s : Solver)", "Option Bool", "UnitProp.Solver.isSat", spec(SOLVER, result=VAL, panic=True)),
@@ -1962,9 +2067,6 @@ FUNCS += [
 
 # functions of the group this translator does not attempt (no generated definition, no tie theorem)
 NOT_ATTEMPTED = {
-    "SATSolver::new": "not attempted: clause normalisation / tautology filter / prime weighting / occurrence lists (model: normClauses, weighClauses, containsLit)",
-    "SATSolver::update_hash_and_sat_set": "not attempted (model: updateHashAndSatSet; the spec table SOLVER already maps its vocabulary)",
-    "UnitPropagate::new": "not attempted (model: upNew / initWatches / impliedUnits / decideAll)",
 }
 
 NAMESPACES = {"cnfutil": "Gen.CnfUtil", "word": "Gen.CnfUtil", "varset": "Gen.CnfUtil", "unitprop": "Gen.UnitProp"}
